@@ -12,13 +12,20 @@ class C05(ScanProperty):
     ASSUMPTIONS = ['accepting token types of every automaton are listed in its terminal_ids (mode_okb, checked on every dump)',
                    'token types inside one mode are distinct (known finding D8 otherwise) and below 2^32 (D9)',
                    'lookahead patterns are not nullable']
-    RULE = ('modes of 2..5 short patterns over a 3-letter alphabet, >= 1 lookahead (positive or negative), distinct token types '
+    RULE = ('half of the cases are ENGINEERED: several patterns are (generalised) prefixes of one word with positive lookaheads that are '
+            '(generalised) following pieces, chosen so that extents (length + lookahead length) tie or interleave, often exactly at the '
+            'end of the input, with token types shuffled against the listing order; the other half: '
+            'modes of 2..5 short patterns over a 3-letter alphabet, >= 1 lookahead (positive or negative), distinct token types '
             'in random priority order, inputs of 0..12 characters with 10% foreign/multi-byte characters; plain next-streams '
             'and mixed histories; non-trivial = distinct (configuration,input,history) in which a token of a pattern with '
             'lookahead was reported or a lookahead pattern lost against another candidate (>= 2 patterns, >= 1 token)')
     N = {'quick': 400, 'thorough': 6000}
 
     def gen_case(self, rng, i):
+        if i % 2 == 1:
+            # engineered: prescribed (length, lookahead length) splits of one word, ties at the end of the input
+            modes, inp = gen.gen_engineered_lookahead_case(rng)
+            return {'modes': modes, 'input': inp, 'ops': gen.all_next(inp)}
         alpha = gen.pick_alpha(rng)
         npat = rng.randint(2, 5)
         mode = gen.gen_small_mode(rng, 'M0', alpha, npat, 0.4, min_la=1)
@@ -649,6 +656,12 @@ class C04(ScanProperty):
     N = {'quick': 400, 'thorough': 8000}
 
     def gen_case(self, rng, i):
+        if i % 4 == 1:
+            modes, inp = gen.gen_engineered_lookahead_case(rng)
+            ops = gen.all_next(inp)
+            if rng.random() < 0.4:
+                ops = [['set_offset', rng.choice(gen.boundaries(inp))]] + ops
+            return {'modes': modes, 'input': inp, 'ops': ops}
         alpha = gen.pick_alpha(rng)
         nm = 1 if i % 3 else rng.randint(1, 3)
         modes = [gen.gen_small_mode(rng, 'M%d' % k, alpha, rng.randint(1, 5), 0.5, min_la=1) for k in range(nm)]
